@@ -69,6 +69,15 @@ def _variant(case, rng):
         p["pad_width"] = 1; p["pad_value"] = 0; nt = True
     if k == "infoweight" and rng.random() < 0.5:
         p.update(prior_strength=0.5, approx_prior=False); nt = True
+    if k == "edgelist" and rng.random() < 0.6:
+        # the dictionary branches of fit (Props/C02 edgelist_fit_transform_eq_transform quantifies over all of
+        # them): joint space, or a supplied row dictionary that filters the last row label out
+        rows = sorted({e[0] for e in case["X"]})
+        if rng.random() < 0.5 or len(rows) < 2:
+            p["joint_space"] = True
+        else:
+            p["row_label_dictionary"] = {r: i for i, r in enumerate(rows[:-1])}
+        nt = True
     out = dict(case, params=p)
     out["nondefault"] = bool(nt)
     return out
